@@ -59,6 +59,8 @@ class Meta:
         self.nfields = len(self.fields) if self.fields else 1
         self.sent = frac(m._sentinel)
         self.dtype = m.dtype
+        self.tol = None
+        self.transform = None
 
     def cell(self, v):
         """exact token list of one cell value as read from the implementation"""
@@ -83,6 +85,9 @@ class Meta:
 
     def cells(self, arr):
         out = []
+        tr = getattr(self, 'transform', None)
+        if tr is not None:
+            arr = tr(arr)
         if self.kind in ('plain', 'packed'):
             for n, d in self._col_tokens(arr):
                 out.append(n)
@@ -104,10 +109,19 @@ class Meta:
         return out
 
 
+class MissingHandle(Exception):
+    pass
+
+
+class HandleDict(dict):
+    def __missing__(self, key):
+        raise MissingHandle(key)
+
+
 class Env:
     def __init__(self):
-        self.maps = {}
-        self.meta = {}
+        self.maps = HandleDict()
+        self.meta = HandleDict()
 
     def put(self, h, m):
         self.maps[h] = m
@@ -291,7 +305,7 @@ def do_bad_update_impl(m, meta, st):
         raise RuntimeError('unknown bad form')
 
 
-def upd_model_op(h, meta, st):
+def upd_model_op(h, meta, st, m=None):
     """explicit per-pixel form of the same update for the model"""
     pixels = [int(p) for p in st['pixels']]
     vals = st['values']
@@ -299,11 +313,9 @@ def upd_model_op(h, meta, st):
     if vals is None:
         na = 1
         if meta.kind == 'rec':
-            # healSparseMap.py:518-520: zero record with the primary set to the sentinel
-            cellt = []
-            for i, f in enumerate(meta.fields):
-                fr = meta.sent if i == meta.prim else Fraction(0)
-                cellt += [fr.numerator, fr.denominator]
+            # healSparseMap.py (after fix F14): the blank record of make_empty (every field at its own
+            # default sentinel) with the primary set to the map's sentinel
+            cellt = blank_tokens(meta, m)
         elif meta.kind == 'wide':
             cellt = [0, 1]
         else:
@@ -340,10 +352,10 @@ def observe_map(m, meta, h, step_i, what):
             mm = []
             if err:
                 return [dict(step=step_i, what=err, layer='impl', impl='RAISED', model=None)]
-            if res[1] != vals:
+            if not tokens_equal(vals, res[1], meta):
                 mm.append(dict(step=step_i, what='values(all pixels) vs L1', layer='L1',
                                impl=_first_diff(vals, res[1], meta), model=None))
-            if res[2] != vals:
+            if not tokens_equal(vals, res[2], meta):
                 mm.append(dict(step=step_i, what='values(all pixels) vs L0 dense spec', layer='L0',
                                impl=_first_diff(vals, res[2], meta), model=None))
             return mm
@@ -444,7 +456,7 @@ def observe_map(m, meta, h, step_i, what):
                 mm = []
                 if res[1] != idx:
                     mm.append(dict(step=step_i, what='raw cov_index_map vs L1', layer='L1', impl=idx, model=res[1]))
-                if res[2] != raw:
+                if not tokens_equal(raw, res[2], meta):
                     mm.append(dict(step=step_i, what='raw sparse_map vs L1', layer='L1',
                                    impl=_first_diff(raw, res[2], meta), model=None))
                 return mm
@@ -472,6 +484,23 @@ def observe_map(m, meta, h, step_i, what):
                                  '(extracted layoutb_with = false)', layer='L0', impl=dict(idx=idx), model=res[1])]
                 return []
             out.append((op, cmp_layout))
+    if 'finer' in what and meta.kind != 'wide':
+        # get_values_pix(nside=finer): the value of the containing pixel (implementation-internal, C15)
+        errs = []
+        try:
+            base = m.get_values_pix(allpix)
+            for up in (2, 4):
+                nfine_up = up * up
+                sel = np.arange(0, meta.npix * nfine_up, max(1, (meta.npix * nfine_up) // 97), dtype=np.int64)
+                got = m.get_values_pix(sel, nside=meta.ns * up)
+                want = base[sel // nfine_up]
+                if meta.cells(got) != meta.cells(want):
+                    errs.append('get_values_pix(nside=%d) differs from the value of the containing pixel' % (meta.ns * up))
+        except Exception as e:  # noqa
+            errs.append('get_values_pix(nside=) raised %s: %s' % (type(e).__name__, e))
+        if errs:
+            out.append((None, lambda res, errs=errs: [dict(step=step_i, what=e, layer='L0', impl=e, model=None) for e in errs]))
+
     if 'covmap' in what:
         cm, err = guard(lambda: [float(x) * meta.nfine for x in m.coverage_map], 'coverage_map')
 
@@ -599,6 +628,23 @@ def observe_map(m, meta, h, step_i, what):
     return out
 
 
+def tokens_equal(a, b, meta):
+    """exact equality, or - when meta.tol is set - rational closeness cell by cell"""
+    if a == b:
+        return True
+    tol = getattr(meta, 'tol', None)
+    if tol is None or len(a) != len(b):
+        return False
+    for i in range(0, len(a), 2):
+        if a[i] == b[i] and a[i + 1] == b[i + 1]:
+            continue
+        x = Fraction(a[i], a[i + 1])
+        y = Fraction(b[i], b[i + 1])
+        if abs(x - y) > tol * max(1, abs(x), abs(y)):
+            return False
+    return True
+
+
 def _first_diff(a, b, meta):
     w = 2 * meta.nfields
     n = max(len(a), len(b)) // w
@@ -634,7 +680,7 @@ def exec_step(env, st, i):
         if expect == 'raise':
             return [(None, lambda res: [dict(step=i, what='update expected to be rejected was accepted',
                                              layer='L0', impl='ok', model='RAISED')])]
-        return [(upd_model_op(h, meta, st), expect_ok(i, 'upd'))]
+        return [(upd_model_op(h, meta, st, m), expect_ok(i, 'upd'))]
     if op == 'badupd':
         h = st['h']
         try:
@@ -645,6 +691,9 @@ def exec_step(env, st, i):
                                          layer='L0', impl='ok', model='RAISED')])]
     if op == 'check':
         return observe(env, st['h'], i, tuple(st.get('what', ('values', 'cov', 'valid', 'nvalid', 'raw', 'layout', 'paths'))))
+    from harness import ops2
+    if op in ops2.STEPS:
+        return ops2.STEPS[op](env, st, i)
     raise RuntimeError('unknown step op %r' % op)
 
 
@@ -662,6 +711,8 @@ def run_histories(histories, run_model):
         for i, st in enumerate(hist):
             try:
                 pairs = exec_step(env, st, i)
+            except MissingHandle:
+                continue     # a step on a handle that was never produced (shrunk history): skipped
             except Exception as e:  # harness or unexpected implementation failure
                 crash = dict(step=i, what='step crashed: %s: %s' % (type(e).__name__, e), layer='impl',
                              impl=traceback.format_exc()[-1500:], model=None)
